@@ -253,12 +253,12 @@ def exh_choice(ctx):
             names = [c[0] for c in cs]
             ci = [i for i, c in enumerate(cs) if c[0] == "clear_captured_groups_beyond"]
             mi = [i for i, c in enumerate(cs) if c[0].endswith("matches_iter")]
-            good = len(ci) == 1 and len(mi) == 1 and ci[0] < mi[0] and cs[ci[0]][1] == ["a1.matcher", "a1.position"] and cs[mi[0]][1][1:] == ["a1.matcher", "a1.position"] and cs[mi[0]][1][0].startswith("next(a1.branches_iter)")
-            _rec(d, "branch-entry", good and r == "true", "entering a branch: clear_captured_groups_beyond(position) first, then branch.matches_iter(matcher, position) (an eager branch iterator would otherwise have its captures wiped); calls %s" % [(c[0], c[1][-1][:30]) for c in cs if c[0] != "next"], loc)
+            good = len(ci) == 1 and len(mi) == 1 and ci[0] < mi[0] and cs[ci[0]][1] == ["a1.matcher", "a1.position"] and cs[mi[0]][1][1:] == ["a1.matcher", "a1.position"] and re.match(r"^(?:<.*?>::)?next\(a1\.branches_iter\)", cs[mi[0]][1][0]) is not None
+            _rec(d, "branch-entry", good and r == "true", "entering a branch: clear_captured_groups_beyond(position) first, then branch.matches_iter(matcher, position) (an eager branch iterator would otherwise have its captures wiped); calls %s" % [(c[0], c[1][-1][:30]) for c in cs if c[0].split("::")[-1] != "next"], loc)
             st = [strip_ver(show(e[1])) for e in p.effects if e[0] == "store"]
             _rec(d, "branch-stored", "a1.current_iter" in st, "the new branch iterator must become current_iter", loc)
         else:
-            _rec(d, "no-branch", r == "false" and not [c for c in cs if c[0] != "next"], "without a further branch next_branch must answer false and do nothing", loc)
+            _rec(d, "no-branch", r == "false" and not [c for c in cs if c[0].split("::")[-1] != "next"], "without a further branch next_branch must answer false and do nothing", loc)
     # source order: branches_iter = branches.iter() (no reversing adaptor)
     NW = "op_choice::ChoiceIterator::new"
     nw = ctx.body(NW)
